@@ -1,5 +1,53 @@
 """C17 — Saved config reads back identically; CLI overrides win but are not saved."""
 
+import os, shutil
+import vlib
+
+
+def pre(ctx):
+    """Obligation flags_fit_now: the documented flag table (Model/Flags.v) against the configuration's field table
+    regenerated from $VERIF_REPO by reflection (the extractor C18 uses)."""
+    gen = os.path.join(ctx.work, "gen")
+    shutil.rmtree(gen, ignore_errors=True)
+    os.makedirs(gen, exist_ok=True)
+    ctx.c17_broken = None
+    ctx.obligations += 1
+    binpath, bout = vlib.go_build(ctx.work, "conf")
+    if binpath is None:
+        ctx.c17_broken = {"stage": "extractor build", "output": bout[-3000:]}
+        return
+    rc, out = vlib.run_harness(binpath, ["-prop", "C18", "-stage", "fields", "-out", gen], ctx.work, 120)
+    run_v = os.path.join(gen, "ConfigFieldsRun.v")
+    if rc != 0 or not os.path.exists(run_v):
+        ctx.c17_broken = {"stage": "extractor run", "output": out[-3000:]}
+        return
+    with open(run_v) as f:
+        defs = f.read().split("(* obligations")[0]
+    with open(os.path.join(gen, "FlagsFit.v"), "w") as f:
+        f.write(defs + "From Reservoir Require Import Model.Flags Check.Flags.\n"
+                "Eval vm_compute in (flags_unfit cfg_table).\n"
+                "Example flags_fit_now : flags_fit cfg_table = true.\nProof. vm_compute. reflexivity. Qed.\n"
+                "Print Assumptions flags_fit_now.\n")
+    rc, out = vlib.sh(["coqc", "-Q", vlib.THEORIES, "Reservoir", "-w", "none", "FlagsFit.v"], cwd=gen, timeout=600)
+    if rc == 0 and "Closed under the global context" in out:
+        ctx.discharged += 1
+        ctx.theorems["regenerated:flags_fit_now"] = "Closed under the global context"
+        ctx.notes.append("flag table checked against the field table regenerated from %s/config: every documented flag addresses an existing setting of its kind" % vlib.REPO)
+        return
+    ctx.c17_broken = {"stage": "obligation", "output": out[-3000:]}
+
+
+def post(ctx):
+    br = getattr(ctx, "c17_broken", None)
+    if not br or ctx.violations:
+        return
+    ctx.violation({"kind": "obligation",
+                   "broken": "flags_fit_now: a flag of the documented table (Model/Flags.v) addresses no setting of the field table "
+                             "regenerated from the source, or a setting of another kind (renamed, removed or retyped setting): the "
+                             "theorems of Properties/C17.v about flags do not speak about the configuration the code has now",
+                   "detail": br}, "replay_flags_fit.json", no_input=True)
+
+
 def stages(tier):
     return [
         {"name": "unit", "cmd": "unit", "args": ["-prop", "C17"], "check": "Check.ByteSize.check_bs",
